@@ -245,6 +245,11 @@ func (f *Frame) loopModsDry(li *loopInfo, pc string, st *State) []string {
 	// snapshot
 	nLines, nObls := len(e.lines), len(e.obls)
 	savedBlk := e.curBlk
+	savedCells := map[string][]string{}
+	for k, v := range e.localCells {
+		savedCells[k] = append([]string{}, v...)
+	}
+	defer func() { e.localCells = savedCells }()
 	oblCount := map[string]int{}
 	for k, v := range e.oblCount {
 		oblCount[k] = v
@@ -532,6 +537,9 @@ func (f *Frame) enterLoop(b *ssa.BasicBlock, li *loopInfo) (string, *State) {
 		}
 	}
 	st = st.clone()
+	e.inLoopHavoc = true
+	defer func() { e.inLoopHavoc = false }()
+	preLoop := st.clone()
 	for _, c := range mods {
 		if c == "*" {
 			for k := range e.compSort {
@@ -540,6 +548,23 @@ func (f *Frame) enterLoop(b *ssa.BasicBlock, li *loopInfo) (string, *State) {
 			break
 		}
 		e.havocComp(st, c)
+	}
+	// private local-variable cells that the loop body never stores to keep their value
+	for _, c := range mods {
+		refs := e.localCells[c]
+		if len(refs) == 0 {
+			continue
+		}
+		cur := e.comp(st, c, "")
+		t := cur
+		for _, r := range refs {
+			if a := e.cellAlloc[r]; a != nil && !storedInBlocks(a, li.body) {
+				t = store(t, r, sel(e.comp(preLoop, c, ""), r))
+			}
+		}
+		if t != cur {
+			st.heap[c] = e.define(c, e.compSort[c], t)
+		}
 	}
 	li.phiNew = map[*ssa.Phi]*Value{}
 	for _, ph := range phisOf(b) {
@@ -718,6 +743,19 @@ func (f *Frame) instr(ins ssa.Instruction) {
 		el := i.Type().(*types.Pointer).Elem()
 		r := e.allocRef(f.st, f.pc, f.id+"."+i.Name())
 		e.zeroInit(f.st, r, el)
+		if _, isS := el.Underlying().(*types.Struct); (!isS || isTimeTime(el)) && cellIsPrivate(i) {
+			if _, isA := el.Underlying().(*types.Array); !isA {
+				if e.localCells == nil {
+					e.localCells = map[string][]string{}
+				}
+				cn := e.cellComp(el)
+				e.localCells[cn] = append(e.localCells[cn], r)
+				if e.cellAlloc == nil {
+					e.cellAlloc = map[string]*ssa.Alloc{}
+				}
+				e.cellAlloc[r] = i
+			}
+		}
 		f.set(i, term(r, sInt, i.Type()))
 	case *ssa.FieldAddr:
 		x := f.val(i.X)
@@ -1102,7 +1140,12 @@ func (f *Frame) makeInterface(x *Value, from, to types.Type) *Value {
 	case sSlice:
 		return term(app("AOpq", tag, app("sarr", x.T)), sAny, to)
 	}
-	// struct values etc.: opaque payload
+	// struct values: boxed through an injective encoding enc.S : S -> Int (dec.S is its inverse), so that two
+	// interface values holding equal structs are equal and the struct can be recovered
+	if ss := e.sorts.sortOf(from); strings.HasPrefix(ss, "|S.") {
+		e.sorts.boxed[ss] = true
+		return term(app("AOpq", tag, app(boxEnc(ss), x.T)), sAny, to)
+	}
 	return term(app("AOpq", tag, e.declare("opq", sInt)), sAny, to)
 }
 
@@ -1126,6 +1169,10 @@ func (e *Encoder) unwrapAny(x string, t types.Type) *Value {
 		return term(app("abool", x), sBool, t)
 	case sAny:
 		return term(x, sAny, t)
+	}
+	if ss := e.sorts.sortOf(t); strings.HasPrefix(ss, "|S.") {
+		e.sorts.boxed[ss] = true
+		return term(app(boxDec(ss), app("aopq", x)), ss, t)
 	}
 	e.fail("cannot unwrap interface value as %v", t)
 	return nil
